@@ -22,6 +22,14 @@ def run_scenario(sess, sc, first=False):
     if not first:
         sess.new_cache()
     load_universe(sess.u, sc["universe"])
+    if sc.get("symlink_out"):
+        # a symlink directly under the cache root pointing at a directory OUTSIDE the cache that
+        # holds a file: clearing the cache must remove the link, never what it points at
+        victim = os.path.join(sess.extdir, "victim-dir")
+        os.makedirs(victim, exist_ok=True)
+        with open(os.path.join(victim, "precious"), "wb") as f:
+            f.write(b"outside the cache")
+        os.symlink(victim, os.path.join(sess.root, "evil-link"))
     xtmp = None
     if sc.get("xdev_tmp"):
         # <cache>/tmp lives on another file system (a symlink into /dev/shm): the rename that
@@ -135,7 +143,7 @@ RULE_PROPS = {
     "NoPartialRecord": ["C07"],            # a partial record was observable
     "StoreStep": ["C03", "C09"],           # incomplete content published / content deleted by a non-remover
     "ContentAtomic": ["C03", "C07"], "ContentAtomicEnd": ["C03", "C13"],
-    "ExtStep": ["C15", "C19"], "ExtTouched": ["C15"], "PathOutsideAreas": ["C15"],
+    "ExtStep": ["C15", "C19"], "ExtTouched": ["C15"], "PathOutsideAreas": ["C15"], "ForeignEntryTouched": ["C15"],
     "ReadOnlyOpMutates": ["C15"], "OutsideMutation": ["C15"],
     "FailedOrReadChangesNothing": ["C13", "C15"],
     "RecordsResolvable": ["C04", "C13"], "RecordsResolvableEnd": ["C04", "C13"],
@@ -769,6 +777,15 @@ def confinement_scenarios(rng, tier, lanes=("S", "Aa", "Ta")):
     keys = keys[:10 if q else len(keys)] + ["".join(chr(rng.randrange(0x20, 0x3000)) for _ in range(8))
                                             for _ in range(2 if q else 20)]
     out = []
+    for lane in lanes:
+        prog = {"keys": {}, "blobs": {}, "steps": []}
+        key = G.add_key(prog, "clear-me-%s" % lane)
+        d = G._mk_data(prog, rng, 9)
+        out.append({"universe": {"keys": prog["keys"], "blobs": prog["blobs"]},
+                    "warm": [{"op": "write", "lane": "S", "key": key, "data": d, "algo": "sha256"}],
+                    "procs": [{"op": "clear", "lane": lane}], "plan": {"kind": "free"}, "cont": [],
+                    "variant": {"key": "clear with a symlink out of the cache", "op": "clear", "lane": lane},
+                    "symlink_out": True})
     for ki, ks in enumerate(keys):
         prog = {"keys": {}, "blobs": {}, "steps": []}
         key = G.add_key(prog, ks)
